@@ -213,6 +213,19 @@ PLATFORMS = {"facebook": eval_facebook, "youtube": eval_youtube, "twitter": eval
 
 
 def eval_platform(case):
+    if "repeat" in case and "url" not in case:
+        # a nested construction, evaluated under CPython's default recursion limit (what a caller of the library runs under)
+        import sys
+        c = dict(case, url=case["head"] + case["repeat"] * case["times"] + case["tail"])
+        c.pop("repeat")
+        lim = sys.getrecursionlimit()
+        sys.setrecursionlimit(1000)
+        try:
+            res = eval_platform(c)
+        finally:
+            sys.setrecursionlimit(lim)
+        case["_record"] = c.get("_record", True)
+        return [(rel, det if len(det) < 400 else det[:150] + " ... " + det[-150:]) for rel, det in res]
     out = []
     plats = [case["platform"]] if case["platform"] != "all" else list(PLATFORMS)
     got = False
@@ -401,6 +414,26 @@ def _strategy(tier):
         lambda v: {"kind": "platform", "platform": "all", "url": v[0], "allow_relative_urls": v[1], "fix_common_mistakes": v[2]})
 
 
+NESTED = [("twitter", "twitter.com/", ["#!", "#!/", "?a#!", "#!//", "x/"], "x"), ("twitter", "https://twitter.com/#!/", ["#!/"], "user/status/1"),
+          ("youtube", "", ["https://www.youtube.com/redirect?q=", "https://www.youtube.com/#/", "https://youtube.com/attribution_link?u=/"], "https://www.youtube.com/watch?v=dQw4w9WgXcQ"),
+          ("facebook", "", ["https://l.facebook.com/l.php?u=", "https://facebook.com/#!/", "https://m.facebook.com/"], "https://facebook.com/zuck"),
+          ("google", "", ["https://www.google.com/url?url=", "https://www.google.com/url?q="], "http://x.org/"),
+          ("telegram", "https://t.me/", ["s/", "joinchat/", "#/"], "x/1"), ("instagram", "https://instagram.com/", ["p/", "#/", "reel/"], "x")]
+
+
+def _nested(acc, shard, nshards, seed, tier):
+    idx = 0
+    for plat, head, reps, tail in NESTED:
+        for rep in reps:
+            for times in ((2, 30, 1200) if tier == "quick" else (2, 30, 1200, 6000)):
+                for opts in ({"allow_relative_urls": False, "fix_common_mistakes": True}, {"allow_relative_urls": True, "fix_common_mistakes": False}):
+                    idx += 1
+                    if idx % nshards != shard:
+                        continue
+                    case = dict(kind="platform", platform=plat, head=head, repeat=rep, times=times, tail=tail, **opts)
+                    acc.check(case, lambda c: c.get("_record", False), ["nested-x%d" % times])
+
+
 def _hyp(acc, shard, nshards, seed, tier):
     fn = hyp_campaign(_strategy, lambda v: v, lambda c: c.get("_record", False), None, examples=(500, 10000), lazy_nontrivial=True)
     return fn(acc, shard, nshards, seed, tier)
@@ -414,5 +447,7 @@ def campaigns(tier, seed):
                    params={"platform": p, "deep": deep}) for p in SPEC]
     cs += [Campaign("wellformed-" + p, _seeds, "enumeration", exhaustive=True, shards=4,
                     bounds="%d well-formed %s URLs x %d hosts x options" % (len(SEEDS[p]), p, len(SPEC[p]["hosts"])), params={"platform": p}) for p in SPEC]
+    cs.append(Campaign("nested-constructions", _nested, "enumeration", exhaustive=True,
+                       bounds="routing / redirect prefixes of every platform repeated 2..1200 (quick) / ..6000 (thorough) times, default recursion limit"))
     cs.append(Campaign("arbitrary-strings", _hyp, "hypothesis", bounds="<=7 tokens from all platforms' hosts/routes/queries + random text, through every function of the six modules"))
     return cs
